@@ -360,6 +360,24 @@ pub fn check_step(cfg: &SpecCfg, obs: &StepObs, focus: &Focus) -> (Vec<Finding>,
             Some(v) => v.iter().any(|x| x.eq_ignore_ascii_case(&m.cmd)),
         }
     };
+    // A server may announce the end of a session to the users who shared a channel with
+    // it (":nick!user@host QUIT :reason"; this one does not, §4.0): such a line, from a
+    // user the step removes to a receiver that shared a channel with it, is tolerated.
+    let gone: BTreeSet<String> = pre_m.users.keys().filter(|n| !exp.next.users.contains_key(*n)).cloned().collect();
+    let tolerated_quit = |receiver: Option<&str>, m: &Msg| -> bool {
+        if !m.cmd.eq_ignore_ascii_case("QUIT") {
+            return false;
+        }
+        let from = match m.prefix.as_deref() {
+            Some(p) => p.split('!').next().unwrap_or("").to_string(),
+            None => return false,
+        };
+        let r = match receiver {
+            Some(r) => r,
+            None => return false,
+        };
+        gone.contains(&from) && from != r && pre_m.chans.values().any(|c| c.members.contains_key(&from) && c.members.contains_key(r))
+    };
     if focus.relays {
         // map receivers
         let mut exp_by_slot: BTreeMap<usize, Vec<ExpLine>> = BTreeMap::new();
@@ -383,7 +401,8 @@ pub fn check_step(cfg: &SpecCfg, obs: &StepObs, focus: &Focus) -> (Vec<Finding>,
             if s == obs_actor {
                 continue;
             }
-            let got: Vec<Msg> = parse_lines(&obs.lines[s]).into_iter().filter(|m| relay_ok(m)).collect();
+            let rnick: Option<String> = obs.pre_infos[s].as_ref().and_then(|i| i.nick.clone());
+            let got: Vec<Msg> = parse_lines(&obs.lines[s]).into_iter().filter(|m| relay_ok(m) && !tolerated_quit(rnick.as_deref(), m)).collect();
             let mut got_rest = vec![];
             let mut mode_lines = vec![];
             for m in got {
@@ -422,7 +441,7 @@ pub fn check_step(cfg: &SpecCfg, obs: &StepObs, focus: &Focus) -> (Vec<Finding>,
     }
     // --- actor's own lines
     if focus.actor && !exp.actor_unchecked {
-        let got_all: Vec<Msg> = parse_lines(&obs.lines[obs_actor]).into_iter().filter(|m| !is_server_ping(server, m)).collect();
+        let got_all: Vec<Msg> = parse_lines(&obs.lines[obs_actor]).into_iter().filter(|m| !is_server_ping(server, m) && !tolerated_quit(actor_nick.as_deref(), m)).collect();
         let mut got = vec![];
         let mut mode_lines = vec![];
         let mut saw_welcome = false;
